@@ -245,6 +245,8 @@ class Context:
                     or prop in this_val._getters
                     or prop in this_val._setters
                 )
+            if isinstance(this_val, JSFunction):
+                return prop in this_val.properties or prop in ("prototype", "length", "name")
             return False
 
         def proto_valueOf(this_val, *args):
@@ -274,6 +276,10 @@ class Context:
 
         def keys_fn(*args):
             obj = args[0] if args else UNDEFINED
+            if isinstance(obj, JSFunction):
+                arr = JSArray()
+                arr._elements = list(obj.properties.keys())
+                return arr
             if not isinstance(obj, JSObject):
                 return JSArray()
             arr = JSArray()
@@ -923,7 +929,11 @@ class Context:
             """Convert argument to a string."""
             if not args:
                 return ""
-            return to_string(args[0])
+            value = args[0]
+            if isinstance(value, JSObject) and self._current_vm is not None:
+                # Objects convert through their own toString/valueOf
+                value = self._current_vm._to_primitive(value, "string")
+            return to_string(value)
 
         string_constructor = JSCallableObject(string_call)
 
